@@ -800,11 +800,12 @@ func modelDelete(f *Frame, st *State, e *ast.CallExpr, recv *Term, args []*Term,
 	if t.single {
 		k = Sym("strEmpty", SStr)
 	} else {
-		k = f.argKey(st, t, obj, f.typeOf(e.Args[1]), e)
 		if rt := f.eng.tableRowType(t); rt != nil && types.Identical(types.Unalias(f.typeOf(e.Args[1])), rt) {
 			k = f.rowKey(st, t, obj)
 		} else if _, isIface := types.Unalias(f.typeOf(e.Args[1])).Underlying().(*types.Interface); isIface {
 			k = f.rowKey(st, t, obj)
+		} else {
+			k = f.argKey(st, t, obj, f.typeOf(e.Args[1]), e)
 		}
 	}
 	tb := f.tableArr(st, t)
@@ -1277,5 +1278,116 @@ func init() {
 		f.store(st, f.lvalue(st, e.Args[0]), ns)
 		c.note("configentry.SortSlice: trusted in-place sort contract (bijective rearrangement, ordered by Less)")
 		return nil
+	}
+}
+
+// ---------------------------------------------------------------- streams used by the snapshot archive (trusted)
+// archive/tar reader: the members of the archive read from `in` are a ghost sequence (tarCount(in), tarName(in,j));
+// Next() yields them in order, then io.EOF; it may instead fail with another error at any point (truncation).
+// bufio.Scanner: the lines of the reader's content are a ghost sequence (lineCount(r), lineAt(r,j)).
+// fmt.Sscanf(text, "%x  %s", &sha, &file): succeeds iff scanOK(text), then *sha = scanSha(text), *file = scanFile(text).
+
+func (c *Ctx) ufun(name string, args []Sort, ret Sort) string { return c.declareFun(name, args, ret) }
+
+func init() {
+	models["archive/tar.NewReader"] = func(f *Frame, st *State, e *ast.CallExpr, recv *Term, args []*Term, sig *types.Signature) []*Term {
+		c := f.c
+		r := f.alloc(st)
+		src := c.heapGet(st, "TAR!src", ArrSort(SInt, SIfc))
+		pos := c.heapGet(st, "TAR!pos", ArrSort(SInt, SInt))
+		c.heapSet(st, "TAR!src", Store(src, r, args[0]))
+		c.heapSet(st, "TAR!pos", Store(pos, r, IntLit(0)))
+		return []*Term{r}
+	}
+	models["archive/tar.Reader.Next"] = func(f *Frame, st *State, e *ast.CallExpr, recv *Term, args []*Term, sig *types.Signature) []*Term {
+		c := f.c
+		src := Select(c.heapGet(st, "TAR!src", ArrSort(SInt, SIfc)), recv)
+		posH := c.heapGet(st, "TAR!pos", ArrSort(SInt, SInt))
+		pos := Select(posH, recv)
+		cnt := App(c.ufun("tarCount", []Sort{SIfc}, SInt), SInt, src)
+		c.assume(st, Ge(cnt, IntLit(0)))
+		broken := c.fresh("tarErr", SBool)
+		more := Lt(pos, cnt)
+		// header object
+		hdrT, _ := deref(sig.Results().At(0).Type())
+		hdr := f.alloc(st)
+		si := c.structInfo(hdrT)
+		if idx, ok := si.byName["Name"]; ok {
+			name := App(c.ufun("tarName", []Sort{SIfc, SInt}, SStr), SStr, src, pos)
+			f.store(st, LHeapField{ref: hdr, st: hdrT, idx: idx}, name)
+		}
+		ok := And(Not(broken), more)
+		c.heapSet(st, "TAR!pos", Store(posH, recv, Ite(ok, Add(pos, IntLit(1)), pos)))
+		eof := f.load(st, LGlobal{name: "io.EOF", typ: sig.Results().At(1).Type()})
+		c.assume(st, Ne(eof, IfaceNil))
+		otherErr := f.someError()
+		c.assume(st, Ne(otherErr, eof))
+		return []*Term{Ite(ok, hdr, IntLit(0)), Ite(ok, IfaceNil, Ite(broken, otherErr, eof))}
+	}
+	models["bufio.NewScanner"] = func(f *Frame, st *State, e *ast.CallExpr, recv *Term, args []*Term, sig *types.Signature) []*Term {
+		c := f.c
+		r := f.alloc(st)
+		src := c.heapGet(st, "SC!src", ArrSort(SInt, SIfc))
+		pos := c.heapGet(st, "SC!pos", ArrSort(SInt, SInt))
+		c.heapSet(st, "SC!src", Store(src, r, args[0]))
+		c.heapSet(st, "SC!pos", Store(pos, r, IntLit(0)))
+		return []*Term{r}
+	}
+	models["bufio.Scanner.Scan"] = func(f *Frame, st *State, e *ast.CallExpr, recv *Term, args []*Term, sig *types.Signature) []*Term {
+		c := f.c
+		src := Select(c.heapGet(st, "SC!src", ArrSort(SInt, SIfc)), recv)
+		posH := c.heapGet(st, "SC!pos", ArrSort(SInt, SInt))
+		pos := Select(posH, recv)
+		cnt := App(c.ufun("lineCount", []Sort{SIfc}, SInt), SInt, src)
+		c.assume(st, Ge(cnt, IntLit(0)))
+		more := Lt(pos, cnt)
+		c.heapSet(st, "SC!pos", Store(posH, recv, Ite(more, Add(pos, IntLit(1)), pos)))
+		return []*Term{more}
+	}
+	models["bufio.Scanner.Text"] = func(f *Frame, st *State, e *ast.CallExpr, recv *Term, args []*Term, sig *types.Signature) []*Term {
+		c := f.c
+		src := Select(c.heapGet(st, "SC!src", ArrSort(SInt, SIfc)), recv)
+		pos := Select(c.heapGet(st, "SC!pos", ArrSort(SInt, SInt)), recv)
+		return []*Term{App(c.ufun("lineAt", []Sort{SIfc, SInt}, SStr), SStr, src, Sub(pos, IntLit(1)))}
+	}
+	models["bufio.Scanner.Err"] = func(f *Frame, st *State, e *ast.CallExpr, recv *Term, args []*Term, sig *types.Signature) []*Term {
+		return f.havocResults(st, sig)
+	}
+	models["fmt.Sscanf"] = func(f *Frame, st *State, e *ast.CallExpr, recv *Term, args []*Term, sig *types.Signature) []*Term {
+		c := f.c
+		if len(e.Args) != 4 {
+			f.fail(e, "Sscanf: only the two-verb form used by the snapshot checksums is modelled")
+		}
+		text := args[0]
+		ok := App(c.ufun("scanOK", []Sort{SStr}, SBool), SBool, text)
+		p1, t1, _ := f.varArg(st, e, args[2], 2, 0)
+		p2, t2, _ := f.varArg(st, e, args[2], 2, 1)
+		e1, _ := deref(t1)
+		e2, _ := deref(t2)
+		if c.sortOf(e1) != SByt || c.sortOf(e2) != SStr {
+			f.fail(e, "Sscanf: expected (*[]byte, *string) targets")
+		}
+		sha := App(c.ufun("scanSha", []Sort{SStr}, SByt), SByt, text)
+		file := App(c.ufun("scanFile", []Sort{SStr}, SStr), SStr, text)
+		l1, l2 := f.ptrLoc(p1, e1), f.ptrLoc(p2, e2)
+		f.store(st, l1, Ite(ok, sha, f.load(st, l1)))
+		f.store(st, l2, Ite(ok, file, f.load(st, l2)))
+		return []*Term{Ite(ok, IntLit(2), IntLit(0)), Ite(ok, IfaceNil, f.someError())}
+	}
+}
+
+// externals whose calls are recorded in ghost state for "X happens only after Y succeeded" contracts
+var recordedExternals = map[string]string{
+	"github.com/hashicorp/raft.Raft.Restore": "raftRestore",
+}
+
+func (f *Frame) recordCall(st *State, name string, errVal *Term) {
+	c := f.c
+	k := c.strLit(name)
+	called := c.heapGet(st, "G!called", ArrSort(SStr, SBool))
+	c.heapSet(st, "G!called", Store(called, k, TTrue))
+	if errVal != nil {
+		le := c.heapGet(st, "G!lasterr", ArrSort(SStr, SIfc))
+		c.heapSet(st, "G!lasterr", Store(le, k, errVal))
 	}
 }
